@@ -73,6 +73,20 @@ def main():
                     if fn != 'count':   # count has the list form only
                         plan.append((fn, xs, '%s(%s)' % (fn, ', '.join(xs))))
                     plan.append((fn, xs, '%s(list: [%s])' % (fn, ', '.join(xs))))
+    # an item that is not a number (null, a string, a boolean) puts the list outside the domain: null - at every position of lists of 1..3
+    # numbers, in the list, variadic and named forms (max is left out: this implementation skips null items there, the property does not say)
+    for fn in ('sum', 'mean', 'min', 'median', 'mode', 'stddev'):
+        for bad in ('null', '"a"', 'true'):
+            for n in range(0, 4):
+                for pos in range(0, n + 1):
+                    xs = ['1', '2', '3'][:n]
+                    items = xs[:pos] + [bad] + xs[pos:]
+                    if fn == 'min' and bad == '"a"' and n == 0:
+                        continue   # min / max also order strings: a list of strings only is inside the domain
+                    plan.append((fn, None, '%s([%s])' % (fn, ', '.join(items))))
+                    plan.append((fn, None, '%s(list: [%s])' % (fn, ', '.join(items))))
+                    if len(items) >= 2:
+                        plan.append((fn, None, '%s(%s)' % (fn, ', '.join(items))))
     rr = replaydrv.run('feel', [p[2] for p in plan], timeout=1200)
     if not rr.get('ok') or rr.get('returncode') != 0:
         print('statdiff could not run: %s' % (rr.get('error') or rr.get('returncode')))
@@ -84,8 +98,8 @@ def main():
     fails = []
     for (fn, xs, e), line in zip(plan, got):
         g = line.split(' => ', 1)[1] if ' => ' in line else line
-        kind, exp = ref(fn, xs)
-        if len(xs) == 1 and not e.startswith(fn + '(['):
+        kind, exp = ref(fn, xs) if xs is not None else ('null', None)
+        if xs is not None and len(xs) == 1 and not e.startswith(fn + '(['):
             if '(list:' not in e:
                 continue   # a single non-list argument: the variadic form with one argument is read as the list form (not compared)
         ok = False
